@@ -259,7 +259,7 @@ def run(ctx, model_ok=True):
     import warnings
     logging.disable(logging.WARNING)          # tsdate warns about every unary input
     warnings.simplefilter("ignore")
-    n = ctx.n(220, 2500)
+    n = ctx.n(160, 2000)
     items = []
     for _ in range(n):
         ts, rmask, kind, small = make_item(ctx.rng)
